@@ -1,11 +1,11 @@
 SPECIFICATION MCSpec
 CONSTANTS Node = {"A", "B", "C"}
           Msgs = {"ping", "pong", "findnode", "nodes", "talkreq", "talkresp"}
-          MaxWire = 12
+          MaxWire = 14
           Senders = {"A", "B"}
           Guided = TRUE
           Spoof = TRUE
-          Depth = 30
+          Depth = 34
 INVARIANTS Authentic CurrentSession ResponderKeys KeysPrivate ChallengeOwn
 CONSTRAINT Emit
 CHECK_DEADLOCK FALSE
